@@ -53,6 +53,7 @@ Record case := {
   o_pre : option val;
   o_parse : pres;
   o_dump : option val;
+  o_save : option val;       (* save(multifile=True): the main file with every nested file it refers to put back in place *)
   o_reparse : option pres }.
 
 Definition res_agrees (r : res val) (o : pres) : bool :=
@@ -76,7 +77,7 @@ Fixpoint select {A} (l : list A) (v : list N) : list A :=
 Definition env_of (x : input) := match x with InArgs e _ => e | InObject e _ => e end.
 Definition options_of (x : input) : list key :=
   match x with
-  | InArgs _ argv => flat_map (fun it => match it with Opt k _ => [k] | Cfg _ => [] end) argv
+  | InArgs _ argv => flat_map (fun it => match it with Opt k _ | OptAlias k _ => [k] | Cfg _ => [] end) argv
   | InObject _ _ => []
   end.
 
@@ -104,6 +105,12 @@ Definition judge_flat (c : case) : verdict :=
                 | POk _, None => false
                 | _, _ => true
                 end in
+  (* save(multifile=True) writes what dump writes, spread over the main file and the nested files *)
+  let m_save := match o_parse c, o_save c with
+                | POk cfg, Some d => val_eqb (strip p cfg) d
+                | POk _, None => false
+                | _, _ => true
+                end in
   let m_reparse := match o_parse c, o_reparse c with
                    | POk cfg, Some r =>
                        if c_full c
@@ -119,6 +126,7 @@ Definition judge_flat (c : case) : verdict :=
            negb (uses_target_option ckeys sl (options_of x))
            && invariant fn_interp ckeys sl cfg
            && match o_dump c with Some d => dump_clean ckeys false sl cfg d | None => false end
+           && match o_save c with Some d => dump_clean ckeys false sl cfg d | None => false end
            && match o_reparse c with
               | Some (POk c2) => invariant fn_interp ckeys sl c2 && reparse_same ckeys sl cfg c2
               | _ => false
@@ -127,19 +135,20 @@ Definition judge_flat (c : case) : verdict :=
        | PCrash => false
        end in
   let s_lists :=
-    match o_parse c, o_dump c with
-    | POk cfg, Some d => dump_clean ckeys true sl cfg d
-    | _, _ => true
+    match o_parse c, o_dump c, o_save c with
+    | POk cfg, Some d, Some sv => dump_clean ckeys true sl cfg d && dump_clean ckeys true sl cfg sv
+    | POk cfg, _, _ => false
+    | _, _, _ => true
     end in
   if N.eqb (c_aspect c) 0
-  then {| v_model := m_build && m_parse && m_pre && m_dump && m_reparse;
+  then {| v_model := m_build && m_parse && m_pre && m_dump && m_save && m_reparse;
           v_class := if negb (overlap_free accepted) then 1
                      else match o_parse c with
                           | POk cfg => if skipped_target_present (p_links p) cfg then 3 else 0
                           | _ => 0
                           end;
           v_spec := s_core |}
-  else {| v_model := m_build && m_parse && m_dump;
+  else {| v_model := m_build && m_parse && m_dump && m_save;
           v_class := 2;
           v_spec := s_lists |}.
 
@@ -154,6 +163,7 @@ Definition prefix_link (n : str) (l : link) : link :=
 Definition linked_option (p : parser) (argv : list item) : bool :=
   existsb (fun it => match it with
                      | Opt k _ => match find_act (p_acts p) k with Some (_, true) => true | _ => false end
+                     | OptAlias k _ => match find_act (p_acts p) k with Some (d, true) => d_alias d | _ => false end
                      | Cfg _ => false
                      end) argv.
 
@@ -172,7 +182,7 @@ Definition judge_tree (c : case) (sb : subcase) : verdict :=
   let ckeys := map d_key (filter (fun d => is_class_kind (d_kind d)) (c_decls c))
                ++ map (fun d => n :: d_key d) (filter (fun d => is_class_kind (d_kind d)) (sb_decls sb)) in
   let required := o_required c ++ map (cons n) (sb_required sb) in
-  let options := options_of x ++ map (cons n) (flat_map (fun it => match it with Opt k _ => [k] | Cfg _ => [] end) (sb_argv sb)) in
+  let options := options_of x ++ map (cons n) (flat_map (fun it => match it with Opt k _ | OptAlias k _ => [k] | Cfg _ => [] end) (sb_argv sb)) in
   let model_parse :=
     if linked_option p top_argv || linked_option q (sb_argv sb) then Err ELinked
     else match o_pre c with
@@ -187,6 +197,11 @@ Definition judge_tree (c : case) (sb : subcase) : verdict :=
                 | POk _, None => false
                 | _, _ => true
                 end in
+  let m_save := match o_parse c, o_save c with
+                | POk cfg, Some d => val_eqb (strip_tree strip1 p q n cfg) d
+                | POk _, None => false
+                | _, _ => true
+                end in
   let s_core :=
     not_required sl required
     && match o_parse c with
@@ -194,6 +209,7 @@ Definition judge_tree (c : case) (sb : subcase) : verdict :=
            negb (uses_target_option ckeys sl options)
            && invariant fn_interp ckeys sl cfg
            && match o_dump c with Some d => dump_clean ckeys false sl cfg d | None => false end
+           && match o_save c with Some d => dump_clean ckeys false sl cfg d | None => false end
            && match o_reparse c with
               | Some (POk c2) => invariant fn_interp ckeys sl c2 && reparse_same ckeys sl cfg c2
               | _ => false
@@ -201,7 +217,7 @@ Definition judge_tree (c : case) (sb : subcase) : verdict :=
        | PLinked | PRejected => true
        | PCrash => false
        end in
-  {| v_model := m_build && m_parse && m_dump;
+  {| v_model := m_build && m_parse && m_dump && m_save;
      v_class := if negb (overlap_free (select (c_links c) (o_build c)) && overlap_free (select (sb_links sb) (sb_build sb))) then 1
                 else match o_parse c with
                      | POk cfg => if skipped_target_present (p_links p) cfg
